@@ -25,13 +25,15 @@ structure TapeOK (sp : Space) (feas : Pos → Bool) (tape : Tape) : Prop where
   feas : ∀ p b, Draw.feas p b ∈ tape → b = feas p
   part : ∀ p v, Draw.part p v ∈ tape → p.length = sp.dims.length ∧ v.length = sp.dims.length
   spiral : ∀ v, Draw.spiral v ∈ tape → v.length = sp.dims.length ∧ noNan v = true
+  mutant : ∀ v, Draw.mutant v ∈ tape → noNan v = true
 
 theorem TapeOK.suffix {sp : Space} {f : Pos → Bool} {t1 t2 : Tape} (h : TapeOK sp f t2) (hs : t1 <:+ t2) : TapeOK sp f t1 :=
   { rnd := fun p hp => h.rnd p (hs.subset hp)
     dist := fun l v hv => h.dist l v (hs.subset hv)
     feas := fun p b hb => h.feas p b (hs.subset hb)
     part := fun p v hv => h.part p v (hs.subset hv)
-    spiral := fun v hv => h.spiral v (hs.subset hv) }
+    spiral := fun v hv => h.spiral v (hs.subset hv)
+    mutant := fun v hv => h.mutant v (hs.subset hv) }
 
 /-- sizes as the kernels need them: no empty dimension, indices fit int64 -/
 def SpaceOK (sp : Space) : Prop := ∀ d ∈ sp.dims, 0 < d.length ∧ (d.length : Int) - 1 ≤ INT64_MAX
@@ -242,7 +244,8 @@ example : TapeOK exSpace exFeas exTape :=
       simp only [exTape, List.mem_cons, Draw.feas.injEq, reduceCtorEq, false_or, List.mem_nil_iff, or_false] at hb
       rcases hb with ⟨rfl, rfl⟩ | ⟨rfl, rfl⟩ <;> decide
     part := by intro p v hp; simp [exTape] at hp
-    spiral := by intro v hp; simp [exTape] at hp }
+    spiral := by intro v hp; simp [exTape] at hp
+    mutant := by intro v hp; simp [exTape] at hp }
 
 example : SpaceOK exSpace := by intro d hd; simp [exSpace] at hd; subst hd; decide
 
